@@ -276,9 +276,57 @@ def check(case: t.Any, ctx: Ctx) -> None:
         ctx.fail('repr', 'repr-fields', f"{ident}; repr is {repr(x)!r}, the repr-fields in order give {want_r!r}")
 
 
+def generic_cases(shard: int, nshards: int) -> t.Iterator[t.Any]:
+    i = 0
+    for (eq, frozen, unsafe_hash) in itertools.product([True, False], [True, False], [False, True]):
+        if i % nshards == shard:
+            yield [eq, frozen, unsafe_hash]
+        i += 1
+
+
+_GT = t.TypeVar('_GT')
+
+
+def check_generic(case: t.Any, ctx: Ctx) -> None:
+    """Equality ignores generic parameters, so hashing must too: G(1), G[int](1), G[Any](1) are equal and hash equal."""
+    import pane
+    import types as _types
+    (eq, frozen, unsafe_hash) = case
+    ctx.label(f"generic:eq={eq},frozen={frozen},unsafe_hash={unsafe_hash}")
+    ctx.nontrivial(True)
+    G = _types.new_class('GenBox', (pane.PaneBase, t.Generic[_GT]), {'eq': eq, 'frozen': frozen, 'unsafe_hash': unsafe_hash},
+                         lambda ns: ns.update({'__annotations__': {'x': _GT, 'y': int}, 'y': 0}))
+    _KEEP.append(G)
+    import warnings
+    with warnings.catch_warnings():
+        warnings.simplefilter('ignore')
+        insts = [G(1), G[int](1), G[t.Any](1), G[int](1, 0)]
+        others = [G(2), G[int](2)]
+    ident = f"generic dataclass with eq={eq} frozen={frozen} unsafe_hash={unsafe_hash}"
+    ctx.evaluated()
+    if eq:
+        for a in insts:
+            for b in insts:
+                if not (a == b) or (a != b):
+                    ctx.fail('equality', 'generic-parameters', f"{ident}: {a!r} (class {type(a).__name__}[{getattr(type(a), '__pane_boundvars__', {})}]) != an equal instance of another parametrisation")
+                    return
+        if any(a == o for a in insts for o in others):
+            ctx.fail('equality', 'generic-parameters', f"{ident}: instances with different fields compare equal")
+            return
+    try:
+        hs = [hash(a) for a in insts]
+    except TypeError:
+        ctx.label('generic:unhashable')
+        return
+    if eq and len(set(hs)) != 1:
+        ctx.fail('eq-implies-hash', 'generic-parameters', f"{ident}: G(1), G[int](1), G[Any](1) compare equal but hash to {len(set(hs))} different values "
+                 f"(len({{...}}) of the three is {len(set(insts))})")
+
+
 def suites(tier: str) -> t.List[Suite]:
     big = tier == 'thorough'
     return [
         Suite('cube', check, cases=cube_cases, exhaustive=True, budget_s=300, render=render),
+        Suite('generic', check_generic, cases=generic_cases, exhaustive=True, budget_s=60),
         Suite('flags', check, strategy=cases, examples=6000 if big else 400, budget_s=300 if big else 30, render=render),
     ]
